@@ -349,7 +349,11 @@ func runC19(r *Run) {
 		r.need(idx != nil, "New locates the wildcard with strings.Index(entry, literal containing '*')")
 		star := strings.IndexByte(lit, '*')
 		noStar := lit[:star] + lit[star+1:]
-		r.need(star+1 < len(lit) && lit[star+1] == '.', "the literal is `…*.`: the wildcard stands for whole labels")
+		if !(star+1 < len(lit) && lit[star+1] == '.') {
+			r.bad("New:wildcard-marker-includes-the-label-separator", r.pos(idx), fmt.Sprintf("a wildcard entry is recognised by %q, which does not include the `.` that follows the `*`: `https://*example.com` is accepted as an entry and its suffix `example.com` allows https://evilexample.com (with credentials, when configured)", lit))
+			return
+		}
+		r.ok("New:wildcard-marker-includes-the-label-separator", r.pos(idx), fmt.Sprintf("wildcard entries are recognised by %q: the wildcard stands for whole labels", lit))
 		raw := idx.Call.Args[0]
 		n := 0
 		var bad []string
@@ -545,6 +549,53 @@ func runC19(r *Run) {
 			}
 			r.check(okN, "match:requires-"+nd.name, r.fpos(m), "match can only answer true when "+nd.name+" holds", "subdomain.match can answer true without "+nd.name+": an origin that merely contains the allowed domain, or is too short to hold both parts, is allowed")
 		}
+	})
+
+	r.rule("R7", "where all origins are allowed the answer does not depend on the origin: with the `allowAllOrigins` = false edges removed, no assignment of the request's origin to the allowed origin is reachable — the simple-request path skips `Vary: Origin` exactly when allowAllOrigins holds, an origin echoed on that path is cached for every origin (E1)", func() {
+		h := handler()
+		var originHeader ssa.Value
+		for _, c := range callsMatching(h, false, nameIs("strings.ToLower")) {
+			if inner, ok := c.Common.Args[0].(*ssa.Call); ok && strings.HasSuffix(calleeName(&inner.Call), ".Ctx).Get") {
+				if s, ok := constString(asConst(inner.Call.Args[0])); ok && s == "Origin" {
+					originHeader = c.Value()
+				}
+			}
+		}
+		r.need(originHeader != nil, "originHeader = strings.ToLower(c.Get(\"Origin\"))")
+		cut := map[edge]bool{}
+		for _, e := range allEdges(h, false) {
+			cut[e] = true
+		}
+		r.need(len(cut) >= 2, "the handler tests allowAllOrigins for the decision and for Vary")
+		// the places where the origin becomes the answer: edges into a phi that carry the origin, stores of it into a cell
+		n := 0
+		for _, b := range h.Blocks {
+			for _, in := range b.Instrs {
+				var from []*ssa.BasicBlock
+				switch x := in.(type) {
+				case *ssa.Phi:
+					for k, ev := range x.Edges {
+						if stripValue(ev) == originHeader {
+							from = append(from, b.Preds[k])
+						}
+					}
+				case *ssa.Store:
+					if stripValue(x.Val) == originHeader {
+						if _, isAlloc := x.Addr.(*ssa.Alloc); isAlloc {
+							from = append(from, b)
+						}
+					}
+				}
+				for _, pb := range from {
+					n++
+					tgt := pb.Instrs[len(pb.Instrs)-1]
+					path, hit := reach(entryOf(h), func(y ssa.Instruction) bool { return y == tgt }, cut, nil)
+					r.check(hit == nil, fmt.Sprintf("handler:echo#%d:not-when-all-origins-are-allowed", n), r.pos(tgt), "the origin is echoed only on paths on which allowAllOrigins is false",
+						"the request's origin can become the allowed origin although all origins are allowed (`*` configured together with an allow function): the answer then varies by origin, but `Vary: Origin` is set only when allowAllOrigins is false — a shared cache serves one origin's answer to another: "+pathString(r.P, path))
+				}
+			}
+		}
+		r.atLeast("places where the origin becomes the allowed origin", n, 2)
 	})
 
 	r.rule("R6", "normalizeOrigin keeps scheme and host as parsed: the normalised origin is lower(Scheme + \"://\" + Host) with nothing cut out of the host (E3 backwards)", func() {
